@@ -227,6 +227,10 @@ def run(ctx, replay=None):
         done += res.find('DONE')[0][1]
         for t in res.find('BAD'):
             r = recs[t[1]]
+            if r['kind'] == 'seq':
+                # the order in which the boundary cells are listed is documented but not part of the property
+                ctx.drift(f"get_manhattan_boundary lists the cells of {r['a']} at distance {r['b']} in another order than the specification")
+                continue
             ctx.violation(f"geometry operator {r['op']} ({r['kind']}) disagrees with the specification: {json.dumps({k: v for k, v in r.items() if k not in ('id',)})[:300]}",
                           {'kind': 'geom', 'record': r})
     if done != len(recs):
